@@ -294,6 +294,36 @@ def step(ctx, case):
     ctx.check('display stays the only incarnation of id 1', conn.db.get(1) == [conn.display] and conn.display.alive and conn.wl_display() is conn.display)
 
 
+def long_reuse(ctx, case):
+    """an id handed out many times: incarnation index and label of every mention keep following the creation order (a..z, aa, ab, ..)"""
+    n, server = case
+    wl = _setup()
+    from core.connection_impl import ConnectionImpl
+    from core.letter_id_generator import number_to_letter_id
+    from core import util
+    util.color_output = False
+    conn = ConnectionImpl(0, 'A', None)
+    conn.db = AssocDict(conn.db)
+    i = ctx.fresh_int('id', SERVER_BASE if server else 2, 2 ** 32 if server else SERVER_BASE)
+    t = 0
+    for k in range(n):
+        t += 1
+        m = wl.Message(t, wl.UnresolvedObject(1, None), True, 'make', (wl.Arg.Object(wl.UnresolvedObject(i, T), True),))
+        conn.message(m)
+        o = m.args[0].obj
+        ctx.check('creation %d gives incarnation %d' % (k, k), o.resolved() and o.generation == k)
+        if k in (0, 25, 26, 27, 51, 52, 701, 702, n - 1):
+            ctx.check('incarnation %d is labelled %s' % (k, number_to_letter_id(k, False)), o.id_str() == '@' + str(o.id) + number_to_letter_id(k, False))
+        if not server:
+            t += 1
+            conn.message(wl.Message(t, wl.UnresolvedObject(1, None), False, 'delete_id', (wl.Arg.Int(i),)))
+    m = wl.Message(t + 1, wl.UnresolvedObject(i, None), False, 'poke', (wl.Arg.Object(wl.UnresolvedObject(i, None), False),))
+    conn.message(m)
+    ctx.check('a later mention goes to the latest incarnation', m.obj.resolved() and m.obj.generation == n - 1 and m.args[0].obj is m.obj)
+    labels = [o.id_str() for o in conn.db[i]]
+    ctx.check('no two incarnations share a label', len(set(labels)) == len(labels))
+
+
 def annotation(ctx, case):
     """what the user sees: the delete_id line, and only it, carries ` -- type@id+letters.destroyed after N.NNNNs` with the lifespan"""
     import re
@@ -401,6 +431,8 @@ def make_obligations(pid, tier):
                'bind with other than 4 arguments) are assumed away; floating-point times (integers used); more table ids / incarnations / arguments than the bound')
     extra = [Ob('destruction-annotation', 'symx', 'rendered delete_id line: annotated with exactly the destroyed incarnation and lifespan, no other line annotated (client and server side logs, id reuse, zero and long lifespans)',
                 FUNCS + ['core.wl.message:Message.__str__'], '2 sides x 3 creation times x 4 lifespans x creator first or not x id reused before or not', annotation, cases=[None])] if pid == 'C03' else []
+    extra += [Ob('long-reuse', 'symx', 'one id handed out up to 703 times (client id with delete_id in between, or server-range id reused freely): incarnation index and letters of every creation and mention',
+                 FUNCS, 'id symbolic in the client resp. server range; 27, 28, 53 and 703 creations', long_reuse, cases=[(27, False), (28, True), (53, True), (703, False)] if tier == 'quick' else [(27, False), (27, True), (28, True), (28, False), (53, True), (703, False), (704, True)])] if pid == 'C02' else []
     obs = [Ob('object-table-step', 'symx', 'Inv /\\ one ConnectionImpl.message step => spec /\\ Inv (histories of any length by induction)',
               FUNCS, bounds, step, cases=cases, stubs=STUBS, outside=outside, budget_s=1500 if tier == 'quick' else 6000),
            Ob('object-table-step-reachable', 'symx', 'reachability twin of the step obligation', FUNCS, bounds, twin,
